@@ -142,6 +142,35 @@ func genC07(t *Tape) *Plan {
 		}
 		k.ManualAckPct = 70
 		k.SubQosW = [3]int{0, 2, 2}
+		if t.Draw("c07.collide.skeleton", 2) == 0 {
+			// ... and deliberately: a subscriber leaves one to three deliveries unacknowledged and then sends a QoS 1/2
+			// PUBLISH (and, for QoS 2, later the PUBREL) of its own carrying the identifier of one of them. Every one
+			// of these requests is owed its response. The random tail follows.
+			cfg.MaxQos = 2
+			ci := g.Connect(0)
+			g.plan.Ops[ci].AckMode = 1
+			si := g.Subscribe(0)
+			g.plan.Ops[si].Pkt.Filters = []refcodec.Filter{{Filter: "t/#", Opts: byte(1 + t.Draw("c07.collide.subqos", 2))}}
+			g.Connect(1)
+			np := 1 + t.Draw("c07.collide.n", 3)
+			for i := 0; i < np; i++ {
+				pi := g.Publish(1)
+				p := g.plan.Ops[pi].Pkt
+				p.Topic = "t"
+				if p.Qos == 0 {
+					p.Qos = 1
+					p.PacketID = g.pid(1)
+				}
+			}
+			oi := g.Publish(0)
+			p := g.plan.Ops[oi].Pkt
+			p.Topic = "t/a"
+			p.Qos = byte(1 + t.Draw("c07.collide.ownqos", 2))
+			p.PacketID = uint16(1 + t.Draw("c07.collide.id", np)) // the broker numbers its deliveries to a client 1, 2, 3, ...
+			for i := range g.plan.Ops {
+				g.plan.Ops[i].Concurrent = false
+			}
+		}
 	}
 	n := 6 + t.Draw("c07.len", 11)
 	for len(g.plan.Ops) < n {
